@@ -26,7 +26,10 @@ INT_RANGES = {"int": (-(2**31), 2**31 - 1), "integer": (-(10**20), 10**20), "lon
 # digits, contain punctuation or non-ASCII letters, or collide after case conversion
 HOSTILE_NAMES = ["class", "def", "None", "True", "False", "import", "from", "lambda", "pass", "match", "case", "type", "_", "return", "global", "async", "await", "in", "is", "not", "with", "yield",
                  "1st", "2", "3d", "a-b", "a.b", "a_b", "aB", "AB", "ab", "Ab", "_a", "a_", "a__b", "x-", "élan", "Ünï", "名前", "foo", "Foo", "FOO", "foo_", "Foo-1", "fooBar", "foo_bar", "foo-bar",
-                 "FooBar", "foo.bar", "x" * 70, "a1", "A1", "a-1", "a_1"]
+                 "FooBar", "foo.bar", "x" * 70, "a1", "A1", "a-1", "a_1", "_1st", "_2nd-code", "β1x", "é9", "__3", "_-4", "zip-code", "zip_code", "zipCode", "km", "Km", "KM"]
+# names that become the same identifier after the naming conventions: 3 or more of one family in one scope
+COLLISION_FAMILIES = [["foo_bar", "foo-bar", "fooBar", "FooBar", "foo.bar"], ["a-b", "a.b", "a_b", "aB", "a__b"], ["zip-code", "zip_code", "zipCode", "ZipCode", "zip.code"],
+                      ["km", "Km", "KM"], ["a1", "A1", "a-1", "a_1"], ["_1st", "1st", "n1st"]]
 # names that are symbols of the generated code itself (not in the property's list; exercised by dedicated probes only)
 GENERATED_CODE_SYMBOLS = ["field", "dataclass", "Decimal", "QName", "XmlDate", "Enum", "Any", "Meta", "value", "list", "str", "int", "Optional", "List", "object", "property", "__init__", "__class__"]
 PLAIN_NAMES = ["alpha", "beta", "gamma", "delta", "item", "entry", "name", "size", "code", "note", "kind", "part", "unit", "row", "cell", "info", "data", "node", "leaf", "head", "tail", "body"]
@@ -167,11 +170,19 @@ class XsdGen:
         self.simple = simple  # restrict to the order-preserving sub-fragment
         self.used_global = set()
         self.class_names = ClassNames()
+        self.family = None
         self.feat = set()
 
     def name(self, used, kind="e"):
         rng = self.rng
         pool = HOSTILE_NAMES if self.hostile and rng.random() < 0.7 else PLAIN_NAMES
+        if self.hostile and self.family and rng.random() < 0.75:
+            free = [n for n in self.family if n not in used and lx.is_ncname(n)]
+            if free:
+                n = rng.choice(free)
+                used.add(n)
+                self.feat.add("name-collision-family")
+                return n
         for _ in range(50):
             n = rng.choice(pool)
             if not lx.is_ncname(n):
@@ -200,6 +211,8 @@ class XsdGen:
                 if self.hostile:
                     pool += ["", " " if b == "string" else "_", "-1", "1.5", "+", "%", "class", "None", "a b" if b == "string" else "ab", "A" * 60, "a", "A", "é", "1a", "_x", "x-", "x.y", "true"]
                 vals = rng.sample(pool, rng.randrange(2, min(6, len(pool))))
+                if self.hostile and rng.random() < 0.3:  # members that become the same constant name
+                    vals = list(dict.fromkeys(vals[:2] + rng.choice([["km", "Km", "KM"], ["a b" if b == "string" else "a_b", "a-b", "a.b", "A_B"], ["x-", "x.", "X", "x"]])))
             elif b == "int":
                 vals = [str(v) for v in rng.sample([0, 1, -1, 10, 255, -32768, 99999], rng.randrange(2, 5))]
             elif b == "decimal":
@@ -342,6 +355,8 @@ class XsdGen:
         rng = self.rng
         used = set()
         ct = ComplexT(name, ns=schema.tns)
+        if depth <= 1:
+            self.family = rng.choice(COLLISION_FAMILIES) if self.hostile and rng.random() < 0.3 else None
         r = rng.random()
         if r < 0.15:
             ct.simple_base = self.simple_type(schema)
@@ -399,6 +414,9 @@ class XsdGen:
             c = rng.choice([c for c in main.ctypes if c.content is not None and c.content.kind != "all"] or [None])
             if c is not None:
                 used = names_of(c)
+                for d in main.ctypes:  # names of its extensions too (the content models are concatenated)
+                    if d.base is c:
+                        used |= names_of(d)
                 insert_before_any(c.content, ElemDecl(self.name(used), c, min=0, max=rng.choice([1, -1])))
                 if c.content.kind == "choice":
                     pass
